@@ -447,7 +447,7 @@ pub struct EnumCase {
     pub pos: u8,
 }
 
-const POSITIONS: u8 = 8;
+const POSITIONS: u8 = 10;
 
 /// the reader's type around the enum, the bytes around the enum's bytes (laid out by hand from the format description:
 /// what matters here is the reader), and how to get the enum value back out of the decoded holder
@@ -524,6 +524,35 @@ fn positioned(pos: u8, to: &Ty, e: &[u8]) -> (Ty, Vec<u8>, fn(&Val) -> Option<Va
             b.extend_from_slice(e);
             (Ty::Option(a(to.clone())), b, |v| match v {
                 Val::Some(x) => Some((**x).clone()),
+                _ => None,
+            })
+        }
+        8 => {
+            // the only element of a sequence in the marker-per-element form (a form the reader accepts from any writer)
+            var_i32(-1, &mut b);
+            b.push(1);
+            b.extend_from_slice(e);
+            b.push(0);
+            (Ty::Vec(a(to.clone())), b, |v| match v {
+                Val::Seq(xs) if xs.len() == 1 => Some(xs[0].clone()),
+                _ => None,
+            })
+        }
+        9 => {
+            // second element of such a sequence, after a unit and before the end marker, inside a tuple
+            b.push(0);
+            var_i32(-1, &mut b);
+            b.push(1);
+            b.extend_from_slice(e);
+            b.push(1);
+            b.extend_from_slice(e);
+            b.push(0);
+            b.push(0x2a);
+            (Ty::Tuple(vec![Ty::LinkedList(a(to.clone())), Ty::U8]), b, |v| match v {
+                Val::Tuple(ts) if ts.len() == 2 && ts[1] == Val::Int(0x2a) => match &ts[0] {
+                    Val::Seq(xs) if xs.len() == 2 => Some(xs[1].clone()),
+                    _ => None,
+                },
                 _ => None,
             })
         }
@@ -632,7 +661,7 @@ pub fn check_c13(c: &EnumCase, acc: &mut Acc, record: bool) -> Verdict {
             }
             let got = decode_at(c.pos, &c.family[c.to], &bytes);
             if record && c.pos % POSITIONS != 0 {
-                acc.bump(["", "position: Vec element", "position: between tuple siblings", "position: field of a version-0 record", "position: field made optional by the reader (wrap)", "position: field made optional by the writer only (unwrap)", "position: field in its own chunk", "position: inside Some"][(c.pos % POSITIONS) as usize], 1);
+                acc.bump(["", "position: Vec element", "position: between tuple siblings", "position: field of a version-0 record", "position: field made optional by the reader (wrap)", "position: field made optional by the writer only (unwrap)", "position: field in its own chunk", "position: inside Some", "position: only element of a marker-per-element sequence", "position: second element of a marker-per-element list inside a tuple"][(c.pos % POSITIONS) as usize], 1);
             }
             if vi < tvars.len() {
                 // (b) the reader knows the constructor (same definition or an extension): same variant, same payload
@@ -744,7 +773,7 @@ pub fn run_c13(cx: &Cx) -> PropResult {
     let mut r = PropResult::new(
         acc,
         "exploration",
-        "enum families E < E' < E'' (variants appended so that they come last in index order; for sorted enums their names sort last; names chosen so that sorted order differs from declaration order; any mix of unit / tuple / struct / transient variants with per-variant evolution histories): 12 families compiled with the real derive macro, the batch's hand-written enums (among them unit-only enums with explicit discriminants that disagree with every index order) and families generated at run time (E3). Cases = (writer member, reader member, value, optional constructor index spliced over the written one: 0-11, 127, 128, 255, 16384, 2^31, u32::MAX, position in which the reader meets the enum: top level, Vec element, between tuple siblings, field of a version-0 record, field the reader has since made optional, field only the writer had made optional, field in a chunk of its own, inside Some). Oracles: leading bytes are 00 and the model's var-u32 index (declaration position, or rank by name when sorted; transient constructors count); an extension reads old data as the same variant with the same payload; an older definition answers Err(InvalidConstructorId) to an appended constructor and to every index >= its number of constructors (never a panic); a transient constructor's index gives Err(DeserializingTransientConstructor) naming it, writing one gives Err(SerializingTransientConstructor); an index rewritten to a constructor with an identical record yields that other constructor. Non-trivial = reader has >= 2 non-unit variants and the case crosses definitions, or uses a spliced index.",
+        "enum families E < E' < E'' (variants appended so that they come last in index order; for sorted enums their names sort last; names chosen so that sorted order differs from declaration order; any mix of unit / tuple / struct / transient variants with per-variant evolution histories): 12 families compiled with the real derive macro, the batch's hand-written enums (among them unit-only enums with explicit discriminants that disagree with every index order) and families generated at run time (E3). Cases = (writer member, reader member, value, optional constructor index spliced over the written one: 0-11, 127, 128, 255, 16384, 2^31, u32::MAX, position in which the reader meets the enum: top level, Vec element, between tuple siblings, field of a version-0 record, field the reader has since made optional, field only the writer had made optional, field in a chunk of its own, inside Some, only element of a sequence in the marker-per-element form, second element of such a list inside a tuple). Oracles: leading bytes are 00 and the model's var-u32 index (declaration position, or rank by name when sorted; transient constructors count); an extension reads old data as the same variant with the same payload; an older definition answers Err(InvalidConstructorId) to an appended constructor and to every index >= its number of constructors (never a panic); a transient constructor's index gives Err(DeserializingTransientConstructor) naming it, writing one gives Err(SerializingTransientConstructor); an index rewritten to a constructor with an identical record yields that other constructor. Non-trivial = reader has >= 2 non-unit variants and the case crosses definitions, or uses a spliced index.",
     );
     r.extra = json!({"compiled_families": fams.len()});
     r
